@@ -1,4 +1,5 @@
 ENGINES = [
+ {"name": "ha", "path": "eng/ha.cc", "serves_properties": ["C15"], "kind_free_text": "real net_ha.c over real async sub-services on SimNet / SimCurl"},
  {"name": "async", "path": "eng/async.cc", "serves_properties": ["C13", "C14", "C06"], "kind_free_text": "real net_async.c + net_tcp_async.c / net_http_curl_async.c over SimNet / SimCurl, simulated clock, reference aggregator/extender"},
 ]
 PENDING = {
@@ -23,6 +24,10 @@ CLAIMED = {
   "technique": "deterministic simulation: arbitrary segmentation, partial sends, would-block, close/reset/refuse/black-hole at arbitrary byte offsets on simulated TCP; oracles on the outgoing byte stream (whole PDUs in submission order), reassembly-buffer discipline, no spinning, recovery on a fresh connection",
   "text": "Seeded search over chunkings and fault positions of the TCP byte streams under the real async and blocking TCP clients; the wire is parsed by an independent TLV codec. Sampling of a space too large to enumerate.",
   "note": TB, "design_ref": "DESIGN.md 6 (C14)"},
+ "C15": {"engine": "ha", "category": "exploration",
+  "technique": "deterministic simulation: real net_ha.c over 1..3 real async sub-services (TCP and HTTP mixed) with per-endpoint reference servers, all arrival orders of replies, failures and configuration pushes; oracles: exactly-once, response only from a valid endpoint reply, error only when no endpoint is failure-free, notices one-to-one, consolidated configuration equals an order-independent reference fold",
+  "text": "Seeded search over per-endpoint outcome orders and timings of the high-availability service; the reference fold over the pushed configurations decides consolidation independently of arrival order.",
+  "note": TB + " One configuration per endpoint and run (a later configuration from the same endpoint replaces an earlier unprocessed one inside the sub-service).", "design_ref": "DESIGN.md 6 (C15)"},
  "C06": {"engine": "async", "category": "exploration",
   "technique": "deterministic simulation with a tamper fault: every request PDU reaching a simulated server is re-MACed by an independent HMAC; replies are bit-flipped, truncated, spliced, re-keyed, re-framed in flight and must never be delivered as content",
   "text": "Independent MAC check of every request at every simulated endpoint in every run, and in-flight corruption of replies with the oracle that content reaches the caller only from PDUs that verify under the configured key and algorithm as delivered.",
